@@ -293,7 +293,7 @@ Proof.
            | context [match ?x with _ => _ end] => destruct x; try discriminate
            | context [if ?x then _ else _] => destruct x; try discriminate
            end;
-      unfold alloc in Hs; inversion Hs; subst; cbn [hp with_heap]; apply grows_extends; eexists; reflexivity.
+      unfold alloc in Hs; inversion Hs; subst; cbn [hp with_heap]; first [apply grows_refl | apply grows_extends; eexists; reflexivity].
   - (* unknown opcode *) discriminate.
 Qed.
 
